@@ -154,6 +154,8 @@ class Subgraph:
         self.original_inputs = []
         # Position in output_tensors of every entry of the original output list (a tensor can be listed twice)
         self.original_output_positions = None
+        # Likewise for original_inputs
+        self.original_input_positions = None
         # Attach virtual outputs to resource variables op
         # in order to be able to traverse the graph correctly
         self.virtual_outputs = []
